@@ -216,25 +216,29 @@ def write_fasta(
 
 
 def _build_newick(tree, *, node, precision, node_labels, include_branch_lengths):
-    label = node_labels.get(node, "")
-    if tree.is_leaf(node):
-        s = f"{label}"
-    else:
-        s = "("
-        for child in tree.children(node):
-            branch_length = tree.branch_length(child)
-            subtree = _build_newick(
-                tree,
-                node=child,
-                precision=precision,
-                node_labels=node_labels,
-                include_branch_lengths=include_branch_lengths,
-            )
+    # Iterative post-order construction, so that deep trees do not hit the
+    # interpreter's recursion limit.
+    stack = [(node, iter(tree.children(node)), [])]
+    result = None
+    while len(stack) > 0:
+        u, children, parts = stack[-1]
+        child = next(children, None)
+        if child is not None:
+            stack.append((child, iter(tree.children(child)), []))
+            continue
+        stack.pop()
+        label = node_labels.get(u, "")
+        if tree.is_leaf(u):
+            s = f"{label}"
+        else:
+            s = "(" + ",".join(parts) + f"){label}"
+        if len(stack) > 0:
             if include_branch_lengths:
-                subtree += ":{0:.{1}f}".format(branch_length, precision)
-            s += subtree + ","
-        s = s[:-1] + f"){label}"
-    return s
+                s += ":{0:.{1}f}".format(tree.branch_length(u), precision)
+            stack[-1][2].append(s)
+        else:
+            result = s
+    return result
 
 
 def build_newick(tree, *, root, precision, node_labels, include_branch_lengths):
